@@ -260,6 +260,7 @@ QUERY_DENSE = dict(gen.DEFAULT_PROFILE, p_q=0.7, p_bf=0.14, p_sb=0.08, p_raise=0
 RICH_ARGS = dict(gen.DEFAULT_PROFILE, args=[0, 1, 1.0, True, False, None, 'x', '', [1, 2], (1, 2), [1.0, 2], {'k': 1},
                                            {'k': 1.0}, {1: 'a'}, {'1': 'a'}, {'a': 1, 'b': 2}, {'b': 2, 'a': 1},
                                            2 ** 70, -0.0, 0, [[]], [()], {'a': [1, (2,)]}, 'é', '\U0001F600'],
+                 kws=[{}, {}, {'k': 1}, {'k': True}, {'k': 1.0}, {'k': [1, (2,)]}, {'a': 1, 'b': 2}, {'b': 2, 'a': 1}, {'k': None}, {'k': 0}, {'k': False}],
                  p_sb=0.35, p_bf=0.2, p_q=0.25)
 RICH_RETS = dict(gen.DEFAULT_PROFILE, rets=['acc', 'const', 'const', 'const'])
 
@@ -277,7 +278,7 @@ def check_C06(tier):
 
 
 def check_C07(tier):
-    return run_hist_prop('C07', tier, 7, 700, 30000, families=[gen.scen_dups], per_family=(100, 2000), prof=RICH_ARGS,
+    return run_hist_prop('C07', tier, 7, 700, 30000, families=[gen.scen_dups, gen.scen_identity], per_family=(120, 2500), prof=RICH_ARGS,
                          p_fail=0.05, p_clean=0.0)
 
 
@@ -527,7 +528,7 @@ C09_SCENARIOS = ['shared_new_dir', 'shared_new_dir_deep', 'sibling_dirs', 'one_f
 def check_C09(tier):
     rep = core.Report('C09', tier)
     gate = core.proof_gate(THEOREMS['C09'], tier)
-    explore_threads('C09', tier, rep, C09_SCENARIOS, budget(tier, 1, 2), budget(tier, 400, 6000))
+    explore_threads('C09', tier, rep, C09_SCENARIOS, budget(tier, 2, 3), budget(tier, 220, 8000))
     return finish('C09', rep, gate)
 
 
